@@ -93,7 +93,7 @@ func (rep *Report) nativePhase() error {
 		}
 		add := func(r *HarnessRun, p PathResult, kind, label string, model map[string]uint64) {
 			id := len(cases)
-			cases = append(cases, nativeCase{ID: id, Harness: r.Spec.Name, Inputs: model, Chooses: p.Chooses, Params: r.Params, Kind: kind, Sched: p.Sched})
+			cases = append(cases, nativeCase{ID: id, Harness: r.Spec.Name, Inputs: model, Chooses: p.Chooses, Params: r.Params, Kind: kind, Sched: p.Sched, Decisions: p.Decisions, Selects: p.Selects})
 			refs[id] = &caseRef{run: r, path: p, kind: kind, label: label, model: model}
 		}
 		for _, r := range runs {
@@ -148,7 +148,7 @@ func (rep *Report) nativePhase() error {
 		if len(cases) == 0 {
 			continue
 		}
-		results, log, err := runNative(rep.Repo, rep.Verif, pkg, runs[0].PkgName, fileList, rep.rewriteFn(pkg), rep.depPkgs(), cases, "")
+		results, log, err := runNative(rep.Repo, rep.Verif, pkg, runs[0].PkgName, fileList, rep.rewriteFn(pkg), rep.depPkgs(), cases, os.Getenv("GOSYM_KEEP"))
 		rep.NativeLog += log
 		if err != nil {
 			return err
@@ -206,7 +206,7 @@ func (rep *Report) nativePhase() error {
 				dir := filepath.Join(rep.Verif, "replays", rep.Spec.Property, fmt.Sprintf("%s-%d", r.Spec.Name, len(seen)))
 				os.RemoveAll(dir)
 				lab, m := violationLabel(&cv.Path)
-				c := []nativeCase{{ID: 0, Harness: r.Spec.Name, Inputs: m, Chooses: cv.Path.Chooses, Params: r.Params, Kind: "violation", Sched: cv.Path.Sched}}
+				c := []nativeCase{{ID: 0, Harness: r.Spec.Name, Inputs: m, Chooses: cv.Path.Chooses, Params: r.Params, Kind: "violation", Sched: cv.Path.Sched, Selects: cv.Path.Selects}}
 				runNative(rep.Repo, rep.Verif, pkg, r.PkgName, fileList, rep.rewriteFn(pkg), rep.depPkgs(), c, dir)
 				mj, _ := json.MarshalIndent(map[string]interface{}{"property": rep.Spec.Property, "harness": r.Spec.Name, "tier": rep.Tier, "expected_label": lab, "engine_outcome": cv.Path.Outcome, "engine_msg": cv.Path.Msg, "inputs": m, "decisions": cv.Path.Decisions, "chooses": cv.Path.Chooses, "params": r.Params, "native": cv.Native}, "", " ")
 				os.WriteFile(filepath.Join(dir, "model.json"), mj, 0o644)
@@ -244,6 +244,9 @@ func (rep *Report) rewriteFn(curPkg string) func(string, map[string]string) erro
 func compareWitness(p *PathResult, n *nativeResult) string {
 	if n.Outcome != "ok" {
 		return fmt.Sprintf("engine path completes, native outcome %s %s", n.Outcome, n.Msg)
+	}
+	if strings.HasPrefix(n.Msg, "schedule-diverged") {
+		return "native schedule replay diverged from the engine's schedule: " + n.Msg + fmt.Sprintf(" sched=%v", p.Sched)
 	}
 	if len(n.Failed) > 0 {
 		return fmt.Sprintf("native run fails assertions %v that the engine discharged", n.Failed)
